@@ -1,62 +1,609 @@
+//! fzsim — deterministic simulation with fault injection for Hypnos-Labs/fuzion_market.
+//!
+//! usage: fzsim check <Cxx> <quick|thorough>      one property, one tier
+//!        fzsim replay <file>                     re-execute a replay file (exit 1 = reproduced)
+//!        fzsim hashes <Cxx> <runs>               per-run event-log hashes (determinism proof)
+//!        fzsim trace <Cxx> <run>                 print the generated history of one run
+//!
+//! exit codes: 0 property held on everything explored (or only known findings), 1 violation,
+//! 2 harness error.
+
 mod chain;
 mod contracts;
+mod gen;
+mod monitor;
 mod msgs;
 mod obs;
 mod ops;
 mod prng;
+mod probes;
 mod proto;
+mod run;
+mod spec;
 mod world;
 
-use ops::{Fund, Op, Sim};
-use world::{CollCfg, WorldCfg};
+use std::collections::BTreeMap;
+use std::time::Instant;
+
+use gen::Mode;
+use run::{load_known, PropCfg, ReplayFile, ReplayViolation};
+use serde_json::json;
+
+const DEFAULT_SEED: u64 = 20260926;
+
+const ALL_KINDS: &[&str] = &[];
+const NONE_KINDS: &[&str] = &["__probe_only"];
+
+fn prop_cfg(id: &str, thorough: bool) -> Option<PropCfg> {
+    use Mode::*;
+    let t = thorough;
+    let pick = |q: u64, th: u64| if t { th } else { q };
+    let c = match id {
+        "C01" => PropCfg {
+            id: "C01",
+            modes: vec![General, Faulty, Flipper, RoyaltyStack, CycleHeavy, ExpiryRace, AssetStack, Flipper],
+            probe: None,
+            faultenum: false,
+            attach: false,
+            runs: pick(2400, 60000),
+            max_steps: 110,
+            kinds: ALL_KINDS,
+        },
+        "C02" => PropCfg {
+            id: "C02",
+            modes: vec![General, Flipper, ExpiryRace, RoyaltyStack, BadInput, ExpiryRace],
+            probe: Some(("buy_triples", 1, if t { 5 } else { 12 })),
+            faultenum: false,
+            attach: false,
+            runs: pick(1800, 40000),
+            max_steps: 110,
+            kinds: &["buy_listing"],
+        },
+        "C03" => PropCfg {
+            id: "C03",
+            modes: vec![ExpiryRace, General, Flipper, Faulty],
+            probe: None,
+            faultenum: false,
+            attach: false,
+            runs: pick(2400, 60000),
+            max_steps: 120,
+            kinds: &["buy_listing", "withdraw_purchased", "remove_bucket", "delete_listing"],
+        },
+        "C04" => PropCfg {
+            id: "C04",
+            modes: vec![General, Flipper, ExpiryRace, Faulty],
+            probe: Some(("nonowner", 1, if t { 6 } else { 20 })),
+            faultenum: false,
+            attach: false,
+            runs: pick(1600, 30000),
+            max_steps: 100,
+            kinds: ALL_KINDS,
+        },
+        "C05" => PropCfg {
+            id: "C05",
+            modes: vec![General, AssetStack, Flipper, Faulty, RoyaltyStack, BadInput],
+            probe: None,
+            faultenum: false,
+            attach: false,
+            runs: pick(2400, 60000),
+            max_steps: 110,
+            kinds: &[
+                "create_listing", "add_to_listing", "create_bucket", "add_to_bucket", "delete_listing",
+                "remove_bucket", "withdraw_purchased",
+            ],
+        },
+        "C06" => PropCfg {
+            id: "C06",
+            modes: vec![General, Flipper, RoyaltyStack, CycleHeavy, RegistryHeavy, Flipper],
+            probe: None,
+            faultenum: false,
+            attach: false,
+            runs: pick(2400, 60000),
+            max_steps: 110,
+            kinds: &["buy_listing"],
+        },
+        "C07" => PropCfg {
+            id: "C07",
+            modes: vec![General, Flipper, Faulty, ExpiryRace, RoyaltyStack, AssetStack],
+            probe: Some(("drain", 1, if t { 2 } else { 5 })),
+            faultenum: false,
+            attach: false,
+            runs: pick(2000, 40000),
+            max_steps: 110,
+            kinds: &["delete_listing", "remove_bucket", "withdraw_purchased"],
+        },
+        "C08" => PropCfg {
+            id: "C08",
+            modes: vec![General, ExpiryRace, BadInput, Flipper],
+            probe: None,
+            faultenum: false,
+            attach: false,
+            runs: pick(2400, 60000),
+            max_steps: 110,
+            kinds: &["finalize", "change_ask", "add_to_listing", "delete_listing", "buy_listing"],
+        },
+        "C09" => PropCfg {
+            id: "C09",
+            modes: vec![BadInput, General, ExpiryRace, Flipper],
+            probe: None,
+            faultenum: false,
+            attach: false,
+            runs: pick(2400, 60000),
+            max_steps: 110,
+            kinds: &["create_listing", "create_bucket"],
+        },
+        "C10" => PropCfg {
+            id: "C10",
+            modes: vec![Flipper, CycleHeavy, General, Faulty],
+            probe: None,
+            faultenum: false,
+            attach: false,
+            runs: pick(2400, 60000),
+            max_steps: 120,
+            kinds: &["buy_listing", "withdraw_purchased", "remove_bucket"],
+        },
+        "C11" => PropCfg {
+            id: "C11",
+            modes: vec![RoyaltyStack, RoyaltyStack, RegistryHeavy, General],
+            probe: None,
+            faultenum: false,
+            attach: false,
+            runs: pick(1200, 30000),
+            max_steps: 60,
+            kinds: &["buy_listing"],
+        },
+        "C12" => PropCfg {
+            id: "C12",
+            modes: vec![BadInput, AssetStack, General, Flipper, RoyaltyStack, BadInput],
+            probe: None,
+            faultenum: false,
+            attach: false,
+            runs: pick(2400, 60000),
+            max_steps: 110,
+            kinds: &["create_listing", "add_to_listing", "create_bucket", "add_to_bucket", "change_ask", "buy_listing"],
+        },
+        "C13" => PropCfg {
+            id: "C13",
+            modes: vec![CycleHeavy, CycleHeavy, General, Flipper],
+            probe: None,
+            faultenum: false,
+            attach: false,
+            runs: pick(2400, 60000),
+            max_steps: 120,
+            kinds: &["fee_cycle", "buy_listing"],
+        },
+        "C14" => PropCfg {
+            id: "C14",
+            modes: vec![RegistryHeavy, RegistryHeavy, General, RoyaltyStack],
+            probe: Some(("registry_lookup", 1, if t { 3 } else { 6 })),
+            faultenum: false,
+            attach: false,
+            runs: pick(2000, 50000),
+            max_steps: 110,
+            kinds: &["register", "update", "remove"],
+        },
+        "C15" => PropCfg {
+            id: "C15",
+            modes: vec![General, Flipper, RoyaltyStack, AssetStack, CycleHeavy],
+            probe: None,
+            faultenum: true,
+            attach: false,
+            runs: pick(1000, 30000),
+            max_steps: 90,
+            kinds: NONE_KINDS,
+        },
+        "C16" => PropCfg {
+            id: "C16",
+            modes: vec![General, ExpiryRace, BulkOwner, CycleHeavy, ExpiryRace, Flipper],
+            probe: Some(("queries", 1, if t { 6 } else { 15 })),
+            faultenum: false,
+            attach: false,
+            runs: pick(900, 12000),
+            max_steps: 100,
+            kinds: NONE_KINDS,
+        },
+        "C18" => PropCfg {
+            id: "C18",
+            modes: vec![General, Flipper, ExpiryRace],
+            probe: Some(("hostile", 1, if t { 6 } else { 15 })),
+            faultenum: false,
+            attach: false,
+            runs: pick(900, 15000),
+            max_steps: 90,
+            kinds: NONE_KINDS,
+        },
+        "C19" => PropCfg {
+            id: "C19",
+            modes: vec![Faulty, BadInput, General, Flipper],
+            probe: Some(("coins", 1, if t { 4 } else { 10 })),
+            faultenum: false,
+            attach: true,
+            runs: pick(1600, 40000),
+            max_steps: 100,
+            kinds: &[
+                "change_ask", "finalize", "delete_listing", "remove_bucket", "buy_listing", "withdraw_purchased",
+                "fee_cycle", "direct_receive",
+            ],
+        },
+        _ => return None,
+    };
+    Some(c)
+}
+
+fn level_of(id: &str) -> &'static str {
+    if id == "C15" {
+        "fault_enumeration"
+    } else {
+        "exploration"
+    }
+}
+
+fn seed_from_env() -> u64 {
+    match std::env::var("VERIF_SEED") {
+        Ok(s) => s.trim().parse::<u64>().unwrap_or_else(|_| prng::fnv1a(s.as_bytes())),
+        Err(_) => DEFAULT_SEED,
+    }
+}
+
+fn workers() -> usize {
+    std::env::var("FZ_WORKERS").ok().and_then(|s| s.parse().ok()).unwrap_or(16)
+}
 
 fn main() {
+    let args: Vec<String> = std::env::args().collect();
     std::panic::set_hook(Box::new(|_| {}));
-    let cfg = WorldCfg {
-        users: 3,
-        natives: vec!["ujunox".into(), "uusdcx".into(), "uatom".into()],
-        n_cw20: 2,
-        colls: vec![CollCfg { admin: Some("adm0".into()), sloppy: false }, CollCfg { admin: None, sloppy: false }],
-        native_amt: 1_000_000,
-        cw20_amt: 1_000_000,
-        nfts_per_user: 2,
-        lenient_bank: false,
-        start_ns: 1_600_000_000_123_456_789,
-        start_height: 1000,
+    let code = match args.get(1).map(|s| s.as_str()) {
+        Some("check") => cmd_check(&args),
+        Some("replay") => cmd_replay(&args),
+        Some("hashes") => cmd_hashes(&args),
+        Some("trace") => cmd_trace(&args),
+        _ => {
+            eprintln!("usage: fzsim check <Cxx> <quick|thorough> | replay <file> | hashes <Cxx> <runs> | trace <Cxx> <run>");
+            2
+        }
     };
-    let sim = Sim::new(&cfg).unwrap();
-    let m = sim.names.market.clone();
-    println!("{:?}", sim.names);
-    let f = |d: &str, a: u128| vec![Fund { denom: d.into(), amount: a }];
-    let ask = |d: &str, a: u128| msgs::AskSpec { native: vec![(d.into(), a)], ..Default::default() };
-    let ops = vec![
-        Op::tx("user0", &m, msgs::create_listing(1, &ask("ujunox", 1000), None), f("uatom", 500)),
-        Op::tx("user0", &m, msgs::finalize(1, 600), vec![]),
-        Op::tx("user1", &m, msgs::create_bucket(1), f("ujunox", 1000)),
-        Op::tx("user1", &m, msgs::buy(1, 1), vec![]),
-        Op::tx("user0", &m, msgs::create_listing(2, &ask("ujunox", 995), None), f("uatom", 7)),
-        Op::tx("user0", &m, msgs::finalize(2, 600), vec![]),
-        Op::tx("user2", &m, msgs::create_bucket(2), f("ujunox", 995)),
-        // user0 now owns bucket 1 (995 + fee 5); list something asking 995 by user2, buy with bucket 1
-        Op::tx("user2", &m, msgs::create_listing(3, &ask("ujunox", 995), None), f("uatom", 9)),
-        Op::tx("user2", &m, msgs::finalize(3, 600), vec![]),
-        Op::tx("user0", &m, msgs::buy(3, 1), vec![]),
-        Op::tx("user2", &m, msgs::remove_bucket(1), vec![]),
-        Op::tx("user0", &m, msgs::withdraw_purchased(3), vec![]),
-        Op::tx("user1", &m, msgs::withdraw_purchased(1), vec![]),
-        Op::tx("user0", &sim.names.cw20s[0], msgs::cw20_send(&m, 50, &msgs::inner_create_bucket_cw20(9)), vec![]),
-        Op::tx("user0", &sim.names.colls[0], msgs::cw721_send(&m, "1", &msgs::inner_add_to_bucket_cw721(9)), vec![]),
-        Op::tx("adm0", &sim.names.registry, msgs::reg_register(&sim.names.colls[0], "pay0", 300), vec![]),
-    ];
-    for op in &ops {
-        let r = sim.apply(op);
-        println!("{} => ok={} {}", op.short(), r.ok, r.err);
-        if let Some(t) = &r.tx { for d in &t.dispatched { println!("    dispatch {:?}", d); } for p in &t.pool_msgs { println!("    pool {:?}", p);} }
+    std::process::exit(code);
+}
+
+fn cmd_check(args: &[String]) -> i32 {
+    let id = args.get(2).cloned().unwrap_or_default();
+    let tier = args.get(3).cloned().unwrap_or_else(|| std::env::var("VERIF_TIER").unwrap_or_else(|_| "quick".into()));
+    let thorough = tier == "thorough";
+    probes::THOROUGH.store(thorough, std::sync::atomic::Ordering::Relaxed);
+    let Some(mut prop) = prop_cfg(&id, thorough) else {
+        eprintln!("unknown property {id}");
+        return 2;
+    };
+    if let Ok(r) = std::env::var("FZ_RUNS") {
+        if let Ok(n) = r.parse() {
+            prop.runs = n;
+        }
     }
-    let o = sim.observe();
-    for l in &o.listings { println!("L {} {} {:?} goods {} ask {} fee {:?}", l.key_owner, l.id, l.status, l.goods.describe(), l.ask.describe(), l.fee); }
-    for b in &o.buckets { println!("B {} {} funds {} fee {:?}", b.key_owner, b.key_id, b.funds.describe(), b.fee); }
-    println!("market bank: {:?}", o.bank.iter().filter(|((a,_),_)| *a == m).collect::<Vec<_>>());
-    println!("pool: {:?} registry {:?}", o.pool, o.registry);
-    println!("hash {:x}", sim.chain.state_hash());
+    let seed = seed_from_env();
+    let known = load_known("known_findings.json");
+    println!("fzsim check {id} tier={tier} VERIF_SEED={seed} runs={} workers={}", prop.runs, workers());
+    let t0 = Instant::now();
+    let b = run::run_batch(seed, &prop, &known, workers(), false);
+    let wall = t0.elapsed().as_secs_f64();
+
+    if let Some(e) = &b.harness_error {
+        eprintln!("HARNESS-ERROR property={id} {e}");
+        return 2;
+    }
+
+    let mut violations = 0;
+    let mut replay_path = String::new();
+    let mut violation_text = String::new();
+    if let Some(v) = &b.first_violation {
+        violations = 1;
+        let viol = v.violation.as_ref().unwrap();
+        let rule = viol.finding.rule;
+        let minimal = run::minimise(&v.cfg, &v.ops, &prop, &known, rule, 400);
+        let out = run::exec_trace(&v.cfg, &minimal, &prop, &known, Some(rule));
+        let (steps, fin, hash) = match out.violation {
+            Some(x) => (minimal, x, out.log_hash),
+            None => {
+                // minimisation must never lose the violation; fall back to the original trace
+                let o = run::exec_trace(&v.cfg, &v.ops, &prop, &known, Some(rule));
+                match o.violation {
+                    Some(x) => (v.ops.clone(), x, o.log_hash),
+                    None => {
+                        eprintln!("HARNESS-ERROR property={id} violation of {rule} in run {} does not re-execute", v.run);
+                        return 2;
+                    }
+                }
+            }
+        };
+        let rf = ReplayFile {
+            version: 1,
+            property: id.clone(),
+            rule: rule.to_string(),
+            signature: fin.finding.sig.clone(),
+            seed,
+            run: v.run,
+            tier: tier.clone(),
+            mode: format!("{:?}", v.mode),
+            world: v.cfg.clone(),
+            steps,
+            violation: ReplayViolation { step: fin.step, detail: fin.finding.detail.clone() },
+            log_hash: format!("{:016x}", hash),
+        };
+        let _ = std::fs::create_dir_all("replays");
+        replay_path = format!("replays/{id}-{seed}-{}.json", v.run);
+        std::fs::write(&replay_path, serde_json::to_string_pretty(&rf).unwrap()).expect("write replay file");
+        // the replay must reproduce in a fresh process before anything is reported
+        let exe = std::env::current_exe().unwrap();
+        let st = std::process::Command::new(exe).arg("replay").arg(&replay_path).arg("--quiet").status();
+        match st {
+            Ok(s) if s.code() == Some(1) => {}
+            other => {
+                eprintln!("HARNESS-ERROR property={id} replay of {replay_path} did not reproduce in a fresh process: {:?}", other);
+                return 2;
+            }
+        }
+        violation_text = format!("{} [{}] at step {} of run {}: {}", rule, fin.finding.sig, fin.step, v.run, fin.finding.detail);
+    }
+
+    write_evidence(&id, &tier, seed, &prop, &b, wall, violations, &known);
+
+    for (i, k) in known.iter().enumerate() {
+        if k.property == id && k.status != "fixed" {
+            let n = b.known_hits.get(&i).copied().unwrap_or(0);
+            println!("KNOWN-FINDING: property={id} {} [{} / {}] (seen {}x in this batch)", k.what, k.rule, k.signature, n);
+        }
+    }
+    if violations > 0 {
+        println!("violation: {violation_text}");
+        println!("VIOLATION property={id} replay={replay_path}");
+        return 1;
+    }
+    println!(
+        "OK property={id} runs={} steps={} evaluations={} distinct={} wall={:.1}s",
+        b.runs_done,
+        b.steps_total,
+        b.stats.evaluations,
+        b.stats.distinct.len(),
+        wall
+    );
+    0
+}
+
+fn reach_wanted(id: &str) -> &'static [&'static str] {
+    match id {
+        "C01" => &[
+            "buy_fee_both_sides", "buy_royalty_paid", "proceeds_bucket_reused", "withdraw_with_fee", "remove_bucket_with_fee",
+            "fee_in_juno", "fee_in_usdc", "fault_fired_msg",
+        ],
+        "C02" => &[
+            "buy_ok", "buy_refused_bucket_not_owned", "buy_refused_not_finalized", "buy_refused_sold", "buy_refused_whitelist",
+            "buy_refused_mismatch", "buy_refused_expired", "buy_refused_royalty_cap", "proceeds_bucket_reused", "self_purchase",
+            "buy_at_exp_minus_1ns", "buy_at_exp_plus_1ns", "whitelisted_purchase", "triple_probe_valid_purchase",
+        ],
+        "C03" => &["buy_ok", "race_loser_with_matching_bucket", "buy_refused_sold", "withdraw_ok", "remove_bucket_ok", "delete_expired_ok"],
+        "C04" => &[
+            "nonowner_vs_preparing", "nonowner_vs_finalized", "nonowner_vs_expired", "nonowner_vs_sold",
+            "nonowner_vs_fresh_bucket", "nonowner_vs_proceeds_bucket", "refused_not_owner",
+        ],
+        "C05" => &[
+            "create_listing_native", "create_listing_cw20", "create_listing_cw721", "add_to_listing_native", "add_to_listing_cw20",
+            "add_to_listing_cw721", "create_bucket_native", "create_bucket_cw20", "create_bucket_cw721", "add_to_bucket_native",
+            "add_to_bucket_cw20", "add_to_bucket_cw721", "withdraw_with_fee", "remove_bucket_with_fee", "delete_preparing_ok",
+            "delete_expired_ok", "merged_topup",
+        ],
+        "C06" => &[
+            "fee_in_juno", "fee_in_usdc", "buy_royalty_paid", "two_nfts_of_one_registered_collection", "royalty_both_sides",
+            "rate_changed_between_finalize_and_buy", "buy_fee_both_sides",
+        ],
+        "C07" => &["drain_bucket", "drain_proceeds_bucket", "drain_preparing", "drain_sold", "drain_finalized_after_expiry", "fault_fired_msg"],
+        "C08" => &[
+            "finalize_599", "finalize_600", "finalize_1209600", "finalize_1209601", "refused_not_preparing", "refused_early_delete",
+            "delete_at_exp_minus_1ns", "delete_at_exp_plus_1ns",
+        ],
+        "C09" => &["refused_id_reused", "refused_illegal_id"],
+        "C10" => &[
+            "pool_msg_seen", "withdraw_with_fee", "remove_bucket_with_fee", "proceeds_bucket_reused_with_pending_fee",
+            "fee_paid_after_denom_switch", "cycle_with_pending_fee", "fault_fired_msg",
+        ],
+        "C11" => &["buy_at_exactly_5000bps", "buy_refused_royalty_cap", "buy_royalty_paid", "two_nfts_of_one_registered_collection"],
+        "C12" => &["refused_bad_deposit", "refused_bad_ask", "refused_over_25", "topup_to_25", "merged_topup"],
+        "C13" => &[
+            "cycle_week_minus_1s", "cycle_at_week", "cycle_week_plus_1s", "cycle_ok", "second_cycle_same_second",
+            "cycle_with_pending_fee", "fee_in_usdc", "fee_in_juno",
+        ],
+        "C14" => &[
+            "register_ok", "update_ok", "remove_ok", "partial_update_ok", "refused_reg_cooldown", "refused_reg_not_admin",
+            "refused_reg_bps", "refused_reg_not_contract", "admin_change", "multi_lookup_with_duplicates",
+            "multi_lookup_mixed_registered_unregistered",
+        ],
+        "C15" => &[
+            "fault_on_bank_send", "fault_on_cw20_transfer", "fault_on_nft_transfer", "fault_on_royalty_bank_send",
+            "fault_on_royalty_cw20_transfer", "fault_on_pool_deposit", "fault_on_cw20_hook", "fault_on_cw721_hook", "fault_on_query",
+        ],
+        "C16" => &[
+            "owner_with_over_240_buckets", "page_above_12_nonempty", "expired_within_current_second",
+            "expiring_within_current_second", "whitelist_query_with_sold_or_expired", "fee_query_before_switch",
+            "fee_query_after_switch",
+        ],
+        "C18" => &[
+            "hostile_vs_preparing", "hostile_vs_finalized", "hostile_vs_sold", "hostile_vs_bucket", "hostile_vs_proceeds_bucket",
+        ],
+        "C19" => &[
+            "coins_on_message_that_would_succeed", "coins_on_message_that_would_fail", "coins_on_receive_entry_point",
+            "refused_coins_attached",
+        ],
+        _ => &[],
+    }
+}
+
+fn rule_text(id: &str) -> String {
+    let base = "cases = oracle evaluations: every executed transaction whose message kind is relevant to this property \
+(judged after the step against the reference model re-seeded from the observed real pre-state, plus the cross-invariants \
+and history monitors) and every fork-probe case; a case is distinct and non-trivial when its (abstract state class of the \
+pre-state [multiset of per-record lifecycle/fee/asset-shape classes + fee denomination + registry size], message kind or \
+probe case kind, deposit path, outcome, fault fired) tuple has not been seen before in this batch — counted with a hash set";
+    format!("{base}; property {id}")
+}
+
+fn write_evidence(id: &str, tier: &str, seed: u64, prop: &PropCfg, b: &run::BatchResult, wall: f64, violations: i32, known: &[run::KnownFinding]) {
+    let wanted = reach_wanted(id);
+    let mut reach: BTreeMap<String, u64> = BTreeMap::new();
+    for (k, v) in &b.reach {
+        reach.insert(k.to_string(), *v);
+    }
+    let mut missing: Vec<&str> = vec![];
+    for w in wanted {
+        if reach.get(*w).copied().unwrap_or(0) == 0 {
+            missing.push(w);
+            reach.insert(w.to_string(), 0);
+        }
+    }
+    if !missing.is_empty() && violations == 0 {
+        eprintln!("reach: property {id}: probes not hit in this batch: {:?}", missing);
+    }
+    let known_list: Vec<serde_json::Value> = known
+        .iter()
+        .enumerate()
+        .filter(|(_, k)| k.property == id)
+        .map(|(i, k)| json!({"rule": k.rule, "signature": k.signature, "status": k.status, "seen": b.known_hits.get(&i).copied().unwrap_or(0)}))
+        .collect();
+    let faults: BTreeMap<String, u64> = b.stats.faults.iter().map(|(k, v)| (k.to_string(), *v)).collect();
+    let ev = json!({
+        "property_id": id,
+        "tier": tier,
+        "seed": seed,
+        "level": level_of(id),
+        "coverage": {
+            "evaluations": b.stats.evaluations,
+            "distinct_nontrivial": b.stats.distinct.len(),
+            "rule": rule_text(id),
+            "samples": b.stats.samples,
+            "exhaustive": false,
+            "runs": b.runs_done,
+            "runs_requested": prop.runs,
+            "transactions": b.stats.txs,
+            "transactions_succeeded": b.stats.tx_ok,
+            "probes": b.stats.probes,
+            "probe_cases": b.stats.probe_cases,
+            "runs_per_hour": if wall > 0.0 { (b.runs_done as f64 / wall * 3600.0) as u64 } else { 0 },
+            "seeds_per_hour_note": "one run = one derived PRNG stream of VERIF_SEED; runs_per_hour is also seeds per hour",
+            "simulated_seconds_covered": b.stats.sim_ns / 1_000_000_000,
+            "fault_kinds_fired": faults,
+            "swarm_modes": b.modes,
+            "distinct_state_classes": b.state_classes.len(),
+            "distinct_transitions": b.transitions.len(),
+            "reach_probes": reach,
+            "reach_ok": missing.is_empty(),
+            "reach_missing": missing,
+            "known_findings": known_list,
+            "components_real": ["marketplace (/repo)", "royalty (/repo)", "royalties (/repo)", "cw20-base 1.0.1", "cw721-base 0.16.0",
+                                "cosmwasm-std 1.3.1", "cw-storage-plus", "cw-utils", "anybuf"],
+            "components_stub": ["transaction/rollback engine", "sub-message router (reply_on semantics)", "bank", "community pool + protobuf decoder",
+                                "block clock", "address validation (cosmwasm MockApi)", "querier", "user/admin/bystander actors",
+                                "hostile token contract", "sloppy CW721 stub", "fault injector"],
+        },
+        "assumptions": [
+            "sampling, not proof: bounded histories from a seeded scheduler; a clean batch is evidence",
+            "chain stub trusted: no gas, no bech32, monotone clock, strict cosmos-sdk bank rules for outgoing sends",
+            "contracts run natively (same source and serialisers as the wasm build), overflow checks on",
+            "honest-token worlds exclude token-level delegation and direct sends to the market address",
+        ],
+        "wall_s": wall,
+        "violations": violations,
+    });
+    let _ = std::fs::create_dir_all("evidence");
+    std::fs::write(format!("evidence/{id}.json"), serde_json::to_string_pretty(&ev).unwrap()).expect("write evidence");
+}
+
+fn cmd_replay(args: &[String]) -> i32 {
+    let Some(path) = args.get(2) else {
+        eprintln!("usage: fzsim replay <file>");
+        return 2;
+    };
+    let quiet = args.iter().any(|a| a == "--quiet");
+    let text = match std::fs::read_to_string(path) {
+        Ok(t) => t,
+        Err(e) => {
+            eprintln!("cannot read {path}: {e}");
+            return 2;
+        }
+    };
+    let rf: ReplayFile = match serde_json::from_str(&text) {
+        Ok(r) => r,
+        Err(e) => {
+            eprintln!("cannot parse {path}: {e}");
+            return 2;
+        }
+    };
+    let thorough = rf.tier == "thorough";
+    probes::THOROUGH.store(thorough, std::sync::atomic::Ordering::Relaxed);
+    let Some(prop) = prop_cfg(&rf.property, thorough) else {
+        eprintln!("unknown property {}", rf.property);
+        return 2;
+    };
+    let known = load_known("known_findings.json");
+    let out = run::exec_trace(&rf.world, &rf.steps, &prop, &known, Some(&rf.rule));
+    if let Some(e) = out.harness_error {
+        eprintln!("HARNESS-ERROR during replay: {e}");
+        return 2;
+    }
+    match out.violation {
+        Some(v) => {
+            let same_hash = format!("{:016x}", out.log_hash) == rf.log_hash;
+            if !quiet {
+                for (i, s) in rf.steps.iter().enumerate() {
+                    println!("  {:3}. {}", i + 1, s.short());
+                }
+                println!("reproduced: {} [{}] at step {}: {}", v.finding.rule, v.finding.sig, v.step, v.finding.detail);
+                println!("log hash {:016x} ({})", out.log_hash, if same_hash { "identical to the recorded one" } else { "DIFFERS from the recorded one" });
+                println!("VIOLATION property={} replay={}", rf.property, path);
+            }
+            if v.step != rf.violation.step || !same_hash {
+                eprintln!("replay reproduced the rule but not the exact execution (step {} vs {}, hash match {})", v.step, rf.violation.step, same_hash);
+                return 2;
+            }
+            1
+        }
+        None => {
+            if !quiet {
+                println!("not reproduced: the recorded history no longer violates {}", rf.rule);
+            }
+            0
+        }
+    }
+}
+
+fn cmd_hashes(args: &[String]) -> i32 {
+    let id = args.get(2).cloned().unwrap_or_default();
+    let runs: u64 = args.get(3).and_then(|s| s.parse().ok()).unwrap_or(64);
+    let Some(mut prop) = prop_cfg(&id, false) else { return 2 };
+    prop.runs = runs;
+    let known = load_known("known_findings.json");
+    let b = run::run_batch(seed_from_env(), &prop, &known, workers(), true);
+    for (r, h) in &b.log_hashes {
+        println!("{id} {r} {:016x}", h);
+    }
+    println!("{id} evaluations {} distinct {} transitions {}", b.stats.evaluations, b.stats.distinct.len(), b.transitions.len());
+    0
+}
+
+fn cmd_trace(args: &[String]) -> i32 {
+    let id = args.get(2).cloned().unwrap_or_default();
+    let run_no: u64 = args.get(3).and_then(|s| s.parse().ok()).unwrap_or(0);
+    let Some(prop) = prop_cfg(&id, false) else { return 2 };
+    let known = load_known("known_findings.json");
+    let r = run::run_one(seed_from_env(), &prop, run_no, &known);
+    println!("mode {:?} world {}", r.mode, serde_json::to_string(&r.cfg).unwrap());
+    let mut exec = run::Exec::new(&r.cfg, prop.faultenum).unwrap();
+    for (i, op) in r.ops.iter().enumerate() {
+        let f = exec.step(op, &prop);
+        println!("{:4}. {}", i + 1, op.short());
+        for x in f {
+            println!("        !! {} [{}] {}", x.rule, x.sig, x.detail);
+        }
+    }
+    println!("reach {:?}", r.reach);
+    if let Some(v) = r.violation {
+        println!("violation at step {}: {} {}", v.step, v.finding.rule, v.finding.detail);
+    }
+    0
 }
